@@ -24,7 +24,7 @@ type c16 struct{}
 func init() { fw.Register(c16{}) }
 
 var c16Cmds = []string{"view", "view-raw", "diff", "copy", "sum", "sum-copy", "sum-diff", "generate"}
-var c16Faults = []string{"none", "none", "textout-missing-dir", "textout-is-dir", "textout-unwritable", "textout-dev-full", "source-missing", "source-garbage", "source-truncated", "dest-readonly-dir", "dest-parent-is-file", "layout-mismatch", "dest-missing", "empty-sources-dest-absent", "dest-write-fails", "remote-no-match", "item-matches-non-directories", "many-slow-sources", "method-not-storable", "source-count-beyond-a-page", "glob-many-files"}
+var c16Faults = []string{"none", "none", "textout-missing-dir", "textout-is-dir", "textout-unwritable", "textout-dev-full", "source-missing", "source-garbage", "source-truncated", "dest-readonly-dir", "dest-parent-is-file", "layout-mismatch", "dest-missing", "empty-sources-dest-absent", "dest-write-fails", "remote-no-match", "item-matches-non-directories", "many-slow-sources", "method-not-storable", "source-count-beyond-a-page", "glob-many-files", "new-dest-other-layout", "dest-coarser-equal-finer-differs"}
 var c16Archs = []string{"all", "first", "last", "n", "-2"}
 var c16Windows = []string{"default", "past-inside", "future", "older-than-finest", "older-than-all", "degenerate"}
 var c16TextOuts = []string{"file", "", "-"}
@@ -42,7 +42,7 @@ func (c16) Meta() fw.Meta {
 			"the harness runs as root and drops the child to uid 65534 for the permission faults; scratch directories are made world-traversable for those cases",
 			"point-line counts are only compared when the second did not change across the process",
 		},
-		Obligations: []string{"invocations", "success_effect_checked", "fault_reported", "textout_file_checked", "absent_series_invocations", "out_of_range_archive_reported", "diff_missing_side_exit1", "uid_dropped_runs", "two_item_fault_runs", "created_with_nothing_to_copy_runs", "destination_write_failures_injected", "remote_no_match_runs", "item_matches_non_directories_runs", "many_slow_sources_runs", "method_not_storable_runs", "source_count_beyond_a_page_runs", "glob_copies_over_many_files"},
+		Obligations: []string{"invocations", "success_effect_checked", "fault_reported", "textout_file_checked", "absent_series_invocations", "out_of_range_archive_reported", "diff_missing_side_exit1", "uid_dropped_runs", "two_item_fault_runs", "created_with_nothing_to_copy_runs", "destination_write_failures_injected", "remote_no_match_runs", "item_matches_non_directories_runs", "many_slow_sources_runs", "method_not_storable_runs", "source_count_beyond_a_page_runs", "glob_copies_over_many_files", "new_destination_with_another_layout_runs", "copies_onto_coarser_equal_finer_differs"},
 		Workers:     12,
 		Level:       "fault_enumeration",
 	}
@@ -88,6 +88,12 @@ func (c16) Run(c *fw.Ctx) {
 	if fault == "glob-many-files" && cmdName == "copy" {
 		textOut = []string{"file", "-"}[c.Index%2]
 	}
+	if fault == "dest-coarser-equal-finer-differs" && cmdName == "copy" {
+		archSel = "all" // the scenario is about copying every archive
+		if window != "default" && window != "past-inside" {
+			window = "default"
+		}
+	}
 
 	dir := c.TmpDir()
 	// make the scratch path traversable for the uid-dropped child
@@ -98,7 +104,8 @@ func (c16) Run(c *fw.Ctx) {
 	srcBase, destBase := filepath.Join(dir, "src"), filepath.Join(dir, "dest")
 	item := "grp"
 	tree := sumTree{Base: srcBase, L: l, Items: map[string][]string{item: {"a.wsp", "b.wsp"}}, Now: now}
-	writeFixture(filepath.Join(srcBase, item, "a.wsp"), l, genContent(r, l, now, 0.7), now)
+	srcContentA := genContent(r, l, now, 0.7)
+	writeFixture(filepath.Join(srcBase, item, "a.wsp"), l, srcContentA, now)
 	writeFixture(filepath.Join(srcBase, item, "b.wsp"), l, genContent(r, l, now, 0.7), now)
 	mustMkdir(filepath.Join(destBase, item))
 	destFile := filepath.Join(destBase, item, "a.wsp") // copy/diff destination
@@ -309,6 +316,30 @@ func (c16) Run(c *fw.Ctx) {
 			}
 			expectFail = "item pattern matches only non-directories"
 			c.Count("item_matches_non_directories_runs", 1)
+		}
+	case "new-dest-other-layout":
+		// the destination does not exist and the requested -retentions differ from the source's in the COARSEST archive
+		// only, while the selection (-archive 0 / a short recent window) never looks at that archive: still a mismatch
+		if (cmdName == "copy" || cmdName == "sum-copy") && (archSel == "first" || window == "past-inside" || window == "degenerate") {
+			os.Remove(destFile)
+			os.Remove(sumDest)
+			other := model.Layout{Archs: []model.Arch{l.Archs[0], l.Archs[1], {Step: l.Archs[2].Step, Points: l.Archs[2].Points + 2}}}
+			for i := range args {
+				if args[i] == "-retentions" {
+					args[i+1] = other.RetentionString()
+				}
+			}
+			expectFail = "layout mismatch"
+			c.Count("new_destination_with_another_layout_runs", 1)
+		}
+	case "dest-coarser-equal-finer-differs":
+		// not a fault: the destination's coarser archives equal the source's, its finest differs, and the source's coarser
+		// slots are NOT the aggregates of its finer ones - after a successful copy the destination equals the source
+		if cmdName == "copy" && (archSel == "all") {
+			d := cloneContent(srcContentA)
+			perturb(r, d, []int{0}, 3+r.Intn(4))
+			writeFixture(destFile, l, d, now)
+			c.Count("copies_onto_coarser_equal_finer_differs", 1)
 		}
 	case "many-slow-sources":
 		// not a fault: an item with many source files, every one of them locked by another process for a moment when
